@@ -413,6 +413,10 @@ def _pure_stdlib():
             out[f"{modname}.{fn}"] = getattr(posixpath, fn)
     for cls in ("PurePosixPath", "PurePath", "Path", "PosixPath"):
         out[f"pathlib.{cls}"] = pathlib.PurePosixPath
+    import decimal
+    import fractions
+    out["fractions.Fraction"] = fractions.Fraction
+    out["decimal.Decimal"] = decimal.Decimal
     return out
 
 
